@@ -56,7 +56,7 @@ std::string scratch_dir() {
     const char *t = getenv("TMPDIR");
     std::string base = t ? t : "/tmp";
     char buf[256];
-    snprintf(buf, sizeof buf, "%s/cmi-verif-%d", base.c_str(), (int)getpid());
+    snprintf(buf, sizeof buf, "%s/cmi-verif-%07d", base.c_str(), (int)getpid());
     mkdir(buf, 0700);
     g_scratch = buf;
   }
